@@ -10,3 +10,71 @@ package ggml
 //@   ensures  0 <= result && result < align
 //@   ensures  (offset + result) % align == 0
 //@   ensures  offset % align == 0 ==> result == 0
+
+// ---- decode path (C10): every function between ggml.Decode and the bytes of the file.
+// ---- Readers are opaque; every decoded integer is unconstrained within its type.
+
+//@ func (*containerGGUF).canCollectArray
+//@   modifies nothing
+//@   ensures result <==> (c.maxArraySize < 0 || size <= c.maxArraySize)
+
+//@ func newGGUF
+//@   modifies nothing
+//@   ensures fresh(result) && result.kv != nil && fresh(result.kv) && result.containerGGUF == container
+
+//@ func readGGUF
+//@   modifies nothing
+
+//@ func readGGUFV1String
+//@   modifies nothing
+
+//@ func discardGGUFString
+//@   modifies llm.scratch
+
+//@ func readGGUFString
+//@   modifies llm.scratch
+
+//@ func readGGUFV1Array
+//@   modifies llm.scratch
+
+//@ func readGGUFArray
+//@   modifies llm.scratch
+
+//@ func (*gguf).Decode
+//@   requires llm.kv != nil
+//@   modifies llm.scratch, llm.kv, llm.tensors, llm.parameters, llm.tensorOffset
+//@   loop 3 invariant 0 <= i && i <= dims
+
+//@ func (*containerGGUF).Decode
+//@   modifies *c
+
+//@ func (Tensor).blockSize
+//@   modifies nothing
+//@   ensures result == 1 || result == 32 || result == 256
+
+//@ func (Tensor).typeSize
+//@   modifies nothing
+
+//@ func (Tensor).parameters
+//@   modifies nothing
+
+//@ func (Tensor).Size
+//@   modifies nothing
+
+//@ func DetectContentType
+//@   modifies nothing
+
+//@ func keyValue
+//@   requires len(defaultValue) >= 1
+//@   modifies nothing
+
+//@ func (*gguf).numKV
+//@   modifies nothing
+//@ func (*gguf).numTensor
+//@   modifies nothing
+//@ func (KV).Architecture
+//@   modifies nothing
+//@ func (KV).String
+//@   modifies nothing
+//@ func (KV).Uint
+//@   modifies nothing
